@@ -312,6 +312,63 @@ class Expander:
         self.mod_funcs = {st.name: st for st in tree.body if isinstance(st, ast.FunctionDef)}
         self.classes = {st.name: {m.name: m for m in st.body if isinstance(m, ast.FunctionDef)} for st in tree.body if isinstance(st, ast.ClassDef)}
         self.inlined = []
+        if self.have_inventory:
+            try:
+                self.import_new_helpers()
+            except Exception:
+                pass
+
+    def import_new_helpers(self):
+        """`from .other import helper` where helper is a function of another analysed module that did not exist when the rules were
+        confirmed (not in that module's inventory): its definition is fetched - with the literal module constants of ITS module
+        written into it, and only if it then refers to nothing else of that module - and inlined like a local new helper"""
+        import builtins
+        from .report import REPO
+        pkg = os.path.dirname(self.rel).split('/')
+        for st in self.tree.body:
+            if not isinstance(st, ast.ImportFrom):
+                continue
+            if st.level:
+                base = pkg[:len(pkg) - (st.level - 1)] if st.level > 1 else list(pkg)
+                parts = base + (st.module.split('.') if st.module else [])
+            else:
+                parts = st.module.split('.') if st.module else []
+            srel = '/'.join(parts) + '.py'
+            inv = inventory().get(srel)
+            path = os.path.join(REPO, srel)
+            if inv is None or not os.path.exists(path):
+                continue
+            wanted = [a for a in st.names if a.name != '*' and a.name not in inv['functions'] and (a.asname or a.name) not in self.mod_funcs]
+            if not wanted:
+                continue
+            other = ast.parse(open(path, encoding='utf-8', errors='replace').read())
+            funcs = {x.name: x for x in other.body if isinstance(x, ast.FunctionDef)}
+            consts = {}
+            for x in other.body:
+                if isinstance(x, ast.Assign) and len(x.targets) == 1 and isinstance(x.targets[0], ast.Name) and isinstance(x.value, (ast.Tuple, ast.Dict, ast.Constant)) \
+                        and all(isinstance(y, (ast.Dict, ast.Tuple, ast.Constant, ast.expr_context)) for y in ast.walk(x.value)):
+                    nm = x.targets[0].id
+                    if sum(1 for z in ast.walk(other) if isinstance(z, ast.Name) and z.id == nm and isinstance(z.ctx, ast.Store)) == 1:
+                        consts[nm] = x.value
+            mine = {n.id for n in ast.walk(self.tree) if isinstance(n, ast.Name)} | {a.asname or a.name for i in self.tree.body if isinstance(i, (ast.Import, ast.ImportFrom)) for a in i.names}
+            for a in wanted:
+                f = funcs.get(a.name)
+                if f is None:
+                    continue
+                f = copy.deepcopy(f)
+                local = _names_assigned(f) | {p.arg for p in f.args.posonlyargs + f.args.args + f.args.kwonlyargs} | \
+                    ({f.args.vararg.arg} if f.args.vararg else set()) | ({f.args.kwarg.arg} if f.args.kwarg else set())
+                sub_ = _Subst({k: v for k, v in consts.items() if k not in local}, {})
+                f.body = [sub_.visit(b) for b in f.body]
+                free = {n.id for n in ast.walk(f) if isinstance(n, ast.Name) and isinstance(n.ctx, ast.Load)} - local
+                # what is left must mean the same thing here: builtins, or names this module imports under the same name
+                other_imports = {x.asname or x.name: ast.dump(i) for i in other.body if isinstance(i, (ast.Import, ast.ImportFrom)) for x in i.names}
+                my_imports = {x.asname or x.name: ast.dump(i) for i in self.tree.body if isinstance(i, (ast.Import, ast.ImportFrom)) for x in i.names}
+                okf = all(hasattr(builtins, n) or (n in other_imports and n in my_imports and n.split('.')[0] in ('np', 'numpy', 'math')) for n in free)
+                if not okf:
+                    continue
+                f.name = a.asname or a.name
+                self.mod_funcs[f.name] = f
 
     def is_new_function(self, name):
         return self.have_inventory and name in self.mod_funcs and name not in self.known_funcs
